@@ -183,6 +183,12 @@ def make_session(fp, bps, ops, target="fd", compress="n", end_flush=True, destro
             toks.append(G.bp_token(op[1])); toks.append("AB:%d" % ndefined); ndefined += 1
             defined.append(op[1])
             exp.append(("lit", "i%d" % ref.add_bp(op[1]))); ab.append("P:" + ps(op[1]))
+        elif k == "ABA":
+            # a set already in the preamble is duplicated by passing a reference to it (get_block_parameters(i) /
+            # get_active_block_parameters_ref()) back to add_block_parameters
+            src = dict(ref.bps[op[1]])
+            toks.append("ABA:%d" % op[1])
+            exp.append(("lit", "i%d" % ref.add_bp(src))); ab.append("P:" + ps(src))
         elif k == "ABR":
             # the caller's parameter-set object #op[1] is handed to add_block_parameters once more (it is the caller's: adding it
             # must not have changed it)
